@@ -1,6 +1,7 @@
 SPECIFICATION GFSpec
 CONSTANTS
   MaxLen = 4
+  ReadSize = 4
   Classes = {"idn"}
   MaxPend = 1
   Threads = {"req"}
@@ -10,6 +11,7 @@ CONSTANTS
   FullDepth = 0
   WideDepth = 0
   Wide = {}
+  Pauses = FALSE
   Core = {}
 INVARIANT EmitF
 INVARIANT FramingOK
